@@ -38,6 +38,32 @@ pub open spec fn fixture_scope_of(decos: Seq<Expr>) -> FixtureScope {
     match first_some(decos, deco_scope_fn(), 0) { Some(s) => s, None => FixtureScope::Function }
 }
 
+/// what `decorator_list.iter().find_map(extract_fixture_scope).unwrap_or(Function)` establishes (object level: the
+/// slice iterator yields references); lifted to fixture_scope_of by lemma_scope_post
+pub open spec fn scope_post(s: Seq<&Expr>, scope: FixtureScope) -> bool {
+    ||| exists|i: int| 0 <= i < s.len() && spec_kw(#[trigger] s[i], kw_scope_fn()) == Some(scope)
+            && (forall|j: int| 0 <= j < i ==> spec_kw(#[trigger] s[j], kw_scope_fn()) is None)
+    ||| scope == FixtureScope::Function && (forall|j: int| 0 <= j < s.len() ==> spec_kw(#[trigger] s[j], kw_scope_fn()) is None)
+}
+pub proof fn lemma_scope_post(ds: Seq<Expr>, scope: FixtureScope)
+    requires scope_post(ds.as_ref(), scope),
+    ensures scope == fixture_scope_of(ds),
+{
+    let s = ds.as_ref();
+    let g = deco_scope_fn();
+    if exists|i: int| 0 <= i < s.len() && spec_kw(#[trigger] s[i], kw_scope_fn()) == Some(scope)
+            && (forall|j: int| 0 <= j < i ==> spec_kw(#[trigger] s[j], kw_scope_fn()) is None) {
+        let i = choose|i: int| 0 <= i < s.len() && spec_kw(#[trigger] s[i], kw_scope_fn()) == Some(scope)
+            && (forall|j: int| 0 <= j < i ==> spec_kw(#[trigger] s[j], kw_scope_fn()) is None);
+        assert forall|j: int| 0 <= j < i implies g(#[trigger] ds[j]) is None by { let y = s[j]; }
+        lemma_first_some_from(ds, g, i, 0);
+        assert(*s[i] == ds[i]);
+    } else {
+        assert forall|j: int| 0 <= j < ds.len() implies g(#[trigger] ds[j]) is None by { let y = s[j]; }
+        lemma_first_some_from(ds, g, ds.len() as int, 0);
+    }
+}
+
 // ---- views of the result -------------------------------------------------------------------------------------
 pub struct FnCtxV {
     pub in_signature: bool,          // FunctionSignature (true) / FunctionBody (false)
